@@ -5,16 +5,16 @@ CONSTANTS
   MinCells = 0
   MaxCells = 0
   AnyOrientation = FALSE
-  InitData = {"none"}
+  InitData = {"full"}
   MaxData = 2
   MaxIx = 1
-  MaxDepth = 3
+  MaxDepth = 1
   CellMask = FALSE
   CopyClear = FALSE
-  Grow = 0
+  Grow = 1
   GrowDepth = 1
   DataCopyDepth = 0
-  Valueless = FALSE
-  Deviations = {"RefusedAddLeavesChild", "ValuelessChildBreaksRemoval"}
+  Valueless = TRUE
+  Deviations = {"GrowKeepsCachedLength"}
 INVARIANT LengthsAgree
 CHECK_DEADLOCK FALSE
